@@ -140,7 +140,7 @@ func (p *wat2wasmWorker) buildInstruction(dst *wasm.Code, fn *ast.Func, i ast.In
 	case token.INS_SELECT:
 		ins := i.(ast.Ins_Select)
 		if ins.ResultTyp != 0 {
-			dst.Body = append(dst.Body, wasm.OpcodeTypedSelect)
+			dst.Body = append(dst.Body, wasm.OpcodeTypedSelect, 1) // vec(valtype) of length 1
 			switch ins.ResultTyp {
 			case token.I32:
 				dst.Body = append(dst.Body, wasm.ValueTypeI32)
